@@ -54,13 +54,13 @@ func round8Rows(pid string) []handRow {
 			{prog: "{ print 'first', $ } function sk(v) { if (v % 2 == 0) { next } return false } sk($) { print 'never' } { print 'last', $ }", in: "[1,2,3,4]", class: "ok", want: "first 1\nlast 1\nfirst 2\nfirst 3\nlast 3\nfirst 4\n"},
 		}
 	case "C04":
-		// a number that is not finite has no JSON form: json() fails, it never writes text that is no JSON
+		// a number that is not finite has no JSON form: json() fails (what the implementation does today) or, whatever
+		// it decides to write instead, writes JSON - never text that is no JSON
 		return []handRow{
-			{prog: "BEGIN { x = num('1e308') * 10; print json([1, x, 2]) }", class: "runtime", want: ""},
-			{prog: "BEGIN { x = num('1e308') * 10; print json([x]) }", class: "runtime", want: ""},
-			{prog: "BEGIN { x = num('1e308') * 10; y = x - x; print json({a: [[1, y]]}) }", class: "runtime", want: ""},
-			{prog: "BEGIN { x = num('1e308') * 10; print 'pre'; print json({a: x}); print 'post' }", class: "runtime", want: "pre\n"},
-			{prog: "BEGIN { x = num('1e308') * 10; print json([[true, null, 's'], [0 - x]]) }", class: "runtime", want: ""},
+			{prog: "BEGIN { x = num('1e308') * 10; print json([1, x, 2]) }", class: "runtime|json", want: ""},
+			{prog: "BEGIN { x = num('1e308') * 10; print json([x]) }", class: "runtime|json", want: ""},
+			{prog: "BEGIN { x = num('1e308') * 10; y = x - x; print json({a: [[1, y]]}) }", class: "runtime|json", want: ""},
+			{prog: "BEGIN { x = num('1e308') * 10; print json([[true, null, 's'], [0 - x], 3, [x, 's', x]]) }", class: "runtime|json", want: ""},
 		}
 	case "C08":
 		// a name first created in the body of a case that binds nothing is gone when the case has finished
@@ -166,6 +166,17 @@ func round8Hand(c *Case, pid string) {
 			continue
 		}
 		okClass := lib.Class == r.class
+		if r.class == "runtime|json" {
+			// a runtime error with nothing written, or a success whose whole output is one JSON value
+			if lib.Class == "ok" {
+				_, used, err := decodeOne(lib.Stdout)
+				if err == nil && strings.TrimSpace(string(lib.Stdout[used:])) == "" {
+					c.Held()
+					continue
+				}
+			}
+			okClass = lib.Class == "runtime"
+		}
 		if r.class == "" {
 			okClass = lib.Class == "ok" || lib.Class == "syntax" || lib.Class == "runtime" || lib.Class == "json"
 		}
